@@ -305,19 +305,24 @@ def _twin_mapping(m, rng, universe):
 
 def _eq_checks(w, g, t, cls, tag, s, also_hash):
     """g == t, t == g, is_isomorphic, hash: returns False if reported"""
+    eq_ok = True
     for name, fn in (("g==t", lambda: g == t), ("t==g", lambda: t == g),
                      ("is_isomorphic", lambda: g.is_isomorphic(t))):
         st, val = _call(w, fn)
         if st == "hang":
             w.report({"C01"}, f"twin:{tag}|{name}|hang|{cls}", "")
-            return False
+            eq_ok = False
+            break
         if st == "exc":
             w.report({"C01"}, f"twin:{tag}|{name}|raised:{type(val).__name__}|{cls}", repr(val))
-            return False
+            eq_ok = False
+            break
         if val is not True:
             w.report({"C01"}, f"twin:{tag}|{name}|false|{cls}", "")
-            return False
+            eq_ok = False
+            break
     w.stats["twin_eq_checked"] += 1
+    # the hash is judged on its own (C03), whatever == said
     if also_hash:
         st1, h1 = _call(w, hash, g)
         st2, h2 = _call(w, hash, t)
@@ -335,12 +340,13 @@ def _eq_checks(w, g, t, cls, tag, s, also_hash):
         if st3 != "ok" or h3 != h1:
             w.report({"C03"}, f"twin:{tag}|hash-unstable|{cls}", f"{h1} {h3}")
             return False
-        st, val = _call(w, lambda: (t in {g}) and (g in {t: 1}))
-        if st != "ok" or val is not True:
-            w.report({"C03"}, f"twin:{tag}|set-membership|{cls}", repr(val))
-            return False
+        if eq_ok:
+            st, val = _call(w, lambda: (t in {g}) and (g in {t: 1}))
+            if st != "ok" or val is not True:
+                w.report({"C03"}, f"twin:{tag}|set-membership|{cls}", repr(val))
+                return False
         w.stats["twin_hash_checked"] += 1
-    return True
+    return eq_ok
 
 
 def _desc_tag(m):
@@ -486,7 +492,7 @@ def compare_pair(w, g1, m1, g2, m2, tag, props_false="C02", props_true="C01"):
             else:
                 w.report({props_true}, f"pair:{tag}|{name}|isomorphic-but-unequal|{cls}",
                          repr({"a": m1.view(), "b": m2.view()})[:2500])
-            return False
+            break   # the hash is judged on its own below
     if m1.kind != m2.kind or not m1.atoms or not m2.atoms:
         return True
     # hashes
